@@ -44,6 +44,8 @@ class Scenario:
                 elif a.startswith("of="):
                     c["of"] = int(a[4:])
                 else:
+                    if a == "loader=nil":
+                        continue
                     if a.startswith("loader="):
                         a = a[7:]
                     for p in a.split(","):
@@ -54,6 +56,12 @@ class Scenario:
                         elif p.startswith("dur:"):
                             c["dur"] = int(p[4:])
             c["pair"] = (val, err)
+            # contract violations (nil key, unsupported key type, nil loader): the call must panic and change nothing;
+            # the property oracles ignore it as a Load/Get2/Set
+            c["op"] = c["kind"]
+            if c["kind"] in ("load", "get2", "set") and (c["key"] == "nil" or (c["key"] or "").startswith("f64:")
+                                                          or (c["kind"] == "load" and "loader=nil" in w[4:])):
+                c["kind"] = "panic"
             self.calls[c["cid"]] = c
         for c in self.calls.values():
             if c["kind"] == "fget" and c["of"] in self.calls:
@@ -81,7 +89,7 @@ class Scenario:
                 c = self.calls[int(w[2][1:])]
                 c["ret_t"] = t
                 if len(w) == 4:
-                    c["ret"] = w[3]            # fut#n | set
+                    c["ret"] = w[3]            # fut#n | set | panic
                 else:
                     c["ret"] = (w[3], w[4])
             elif w[1] == "lstart":
@@ -172,6 +180,16 @@ class Scenario:
             else:
                 definite = True
         return definite, maybe
+
+
+def monitor_coverage(ctx):
+    """evidence: how many scenario lines the monitor gave up on (time box) - those are judged by the oracle only"""
+    ex = ctx.get("ex") or {}
+    model = ex.get("model") or []
+    unchecked = sum(1 for m in model if m.startswith("ok unchecked"))
+    skipped = sum(1 for m in model if m.startswith("ok skipped"))
+    ctx["coverage"]["monitor_unchecked_lines_oracle_only"] = unchecked
+    ctx["coverage"]["lines_skipped_after_livelock"] = skipped
 
 
 def judge_pure(script, impl):
@@ -298,6 +316,9 @@ class C04(Spec):
         if not sc.ok:
             return None
         return c04_oracle(sc)
+
+    def extra(self, ctx):
+        monitor_coverage(ctx)
 
     def nontrivial(self, script, impl):
         if not script.startswith("cfg"):
